@@ -1,6 +1,11 @@
 package appdrv
 
-import "github.com/rigochain/rigo-go/libs/web3"
+import (
+	"fmt"
+	"math/big"
+
+	"github.com/rigochain/rigo-go/libs/web3"
+)
 
 // Directed EVM scenarios (C17; also C02/C04/C05/C16 for contract transactions).
 
@@ -169,9 +174,12 @@ func init() {
 			s.expect(OK(ev), "deploy counter")
 			ev, lg := s.Deploy(5, prog("store_log", nil), 0, "0", cgas)
 			s.expect(OK(ev), "deploy store_log")
+			ev, sc := s.Deploy(6, prog("store_context", nil), 0, "0", cgas)
+			s.expect(OK(ev), "deploy a contract that reads the block context")
 			s.End()
 			s.Begin(allHdr) // 4
 			s.expect(OK(s.CallC(5, cnt, nil, "0", cgas)), "counter call")
+			s.expect(OK(s.CallC(5, sc, nil, "0", cgas)), "block context read in block 4")
 			s.End()
 			s.Blocks(2, allHdr) // 5, 6
 			s.Begin(allHdr)     // 7
@@ -185,12 +193,14 @@ func init() {
 			s.End()
 			s.Begin(allHdr) // 10
 			s.expect(OK(s.CallC(6, cnt, nil, "0", cgas)), "counter call after quiet blocks")
+			s.expect(OK(s.CallC(6, sc, nil, "0", cgas)), "block context read in block 10")
 			s.expect(OK(s.Transfer(4, 6, "1e18")), "native transfer")
 			s.End()
-			s.Blocks(1, allHdr) // 11
-			s.Begin(allHdr)     // 12
+			s.Blocks(1, allHdr)       // 11
+			s.Begin(Hdr{Proposer: 2}) // 12
 			s.expect(OK(s.CallC(4, lg, append(word([]byte{42}), word([]byte{7})...), "0", cgas)), "store_log call")
 			s.expect(OK(s.CallC(4, cnt, nil, "0", cgas)), "counter call")
+			s.expect(OK(s.CallC(4, sc, nil, "0", cgas)), "block context read in block 12 (another proposer)")
 			s.End()
 			s.Blocks(3, allHdr)
 		}},
@@ -251,6 +261,34 @@ func init() {
 			s.expect(OK(s.CallC(5, cnt, nil, "0", cgas)), "the refused sender's next call")
 			s.End()
 			s.Blocks(2, allHdr)
+		}},
+		Directed{"evm_sweep_to_zero", []string{"C04", "C17", "C02"}, fam(0), func(s *Script) {
+			// accounts whose balance becomes exactly zero through / next to contract execution, then are funded and used again
+			s.Blocks(2, allHdr)
+			bal := func(a int) *big.Int { return FromLimbs(s.View().Accts[fmt.Sprintf("a%d", a)].Bal) }
+			s.Begin(allHdr) // 3
+			s.expect(OK(s.Transfer(6, 5, "1e18")), "a6 uses nonce 0 natively")
+			first := s.Sc.Ops[len(s.Sc.Ops)-1] // the signed bytes of that transfer, for a later replay
+			s.expect(OK(s.Transfer(5, 4, "1e18")), "a5 uses nonce 0 natively")
+			s.End()
+			s.Begin(allHdr) // 4: a6 sweeps everything to a4 with a contract-type transaction (21000 gas at price 10)
+			sweep := new(big.Int).Sub(bal(6), big.NewInt(210000))
+			s.expect(OK(s.CallC(6, s.R.KR.Addr(4), nil, sweep.String(), 21000)), "sweep through the EVM leaves exactly zero")
+			// a5 drains itself natively (balance - fee), then is the target of a zero-value contract-type call
+			drain := new(big.Int).Sub(bal(5), new(big.Int).Mul(big.NewInt(int64(s.gas())), s.price().ToBig()))
+			s.expect(OK(s.Transfer(5, 4, drain.String())), "native drain to exactly zero")
+			s.expect(OK(s.CallC(4, s.R.KR.Addr(5), nil, "0", 21000)), "zero-value contract-type call to the drained account")
+			s.End()
+			s.Begin(allHdr) // 5: both are funded again; an old signed transaction is replayed
+			s.expect(OK(s.Transfer(4, 6, "5e18")), "fund a6 again")
+			s.expect(OK(s.Transfer(4, 5, "5e18")), "fund a5 again")
+			s.End()
+			s.Begin(allHdr) // 6
+			s.expect(!OK(s.DeliverRaw(unhex(first.Tx), "valid", "replay:transfer")), "the old nonce-0 transfer must not run again")
+			s.expect(OK(s.Transfer(6, 4, "1e18")), "a6 continues with its next nonce")
+			s.expect(OK(s.Transfer(5, 4, "1e18")), "a5 continues with its next nonce")
+			s.End()
+			s.Blocks(1, allHdr)
 		}},
 		Directed{"evm_mixed", []string{"C17", "C02", "C04", "C16"}, fam(2), func(s *Script) {
 			// contract transactions interleaved with staking, withdrawal and fees on the same accounts; the proposer uses contracts
